@@ -210,9 +210,118 @@ def gen_solve_op(rng, spec, variant, idx, tier):
     return pokes + [op]
 
 
+# ---- the single-fault lattice of C06, enumerated by run index (the PRNG is not consulted)
+
+LAT_KINDS = ['none', 'nan', 'inf', '-inf', 'npwarn-div0', 'npwarn-log0', 'pywarn-before', 'pywarn-after', 'exception', 'hook-before-exc', 'hook-after-exc']
+LAT_ITERS = [(mx, mn) for mx in range(0, 5) for mn in range(0, mx + 2)]  # (max_iter, min_iter), min_iter up to max_iter + 1
+LAT_DIMS = [len(LAT_KINDS), len(LAT_ITERS), 4, 2, 5, 2, 2, 2, 2, 3]
+LAT_SIZE = 1
+for _d in LAT_DIMS:
+    LAT_SIZE *= _d
+
+
+def gen_lattice_schedule(idx, tier):
+    """One point of: fault kind x (max_iter, min_iter) x faulting pass x variable x errors x failures x catch_first_error x
+    pre-existing non-finite x heal x where the undisturbed run would converge. Thorough tier: every point, in order."""
+    point = idx % LAT_SIZE if tier == 'thorough' else (idx * 7919) % LAT_SIZE
+    digits = []
+    rest = point
+    for dsz in LAT_DIMS:
+        digits.append(rest % dsz)
+        rest //= dsz
+    kind = LAT_KINDS[digits[0]]
+    max_iter, min_iter = LAT_ITERS[digits[1]]
+    kf = 1 + digits[2] % max(1, max_iter)
+    j = digits[3]
+    errors = ['raise', 'skip', 'ignore', 'replace', 'bogus'][digits[4]]
+    failures = ['raise', 'ignore'][digits[5]]
+    cfe = bool(digits[6])
+    pre = bool(digits[7])
+    heal = bool(digits[8])
+    conv_at = [1, max(1, max_iter), 99][digits[9]]
+    tol = 0.5
+    spec = {'kind': 'scripted', 'endo': ['Y0', 'Y1'], 'exo': ['X0'], 'check': ['Y0', 'Y1'], 'lags': 0, 'leads': 0, 'span': {'type': 'range', 'n': 3, 'origin': 0}, 'init': {'Y0': [1.0, 2.0, 3.0], 'Y1': [0.5, 0.25, 0.125], 'X0': [0.0, 0.0, 0.0]}}
+    passes = []
+    for k in range(1, max_iter + 2):
+        passes.append({'a': 'delta', 'd': [1.0, -1.0] if k < conv_at else [0.125, 0.0]})
+    plan = {'passes': passes}
+    if kind in ('nan', 'inf', '-inf') and kf <= len(passes):
+        v = [None, None]
+        v[j] = kind
+        passes[kf - 1] = {'a': 'set', 'v': v}
+        if heal and kf < len(passes):
+            for kk in range(kf, len(passes)):
+                passes[kk] = {'a': 'set', 'v': [2.0, 2.0]}
+    elif kind.startswith('npwarn') and kf <= len(passes):
+        passes[kf - 1] = {'a': 'npwarn', 'j': j, 'op': kind.split('-')[1], 'd': [0.0, 0.0]}
+        if heal and kf < len(passes):
+            for kk in range(kf, len(passes)):
+                passes[kk] = {'a': 'set', 'v': [2.0, 2.0]}
+    elif kind.startswith('pywarn') and kf <= len(passes):
+        passes[kf - 1] = {'a': 'pywarn', 'when': kind.split('-')[1], 'cat': ['RuntimeWarning', 'UserWarning'][j], 'd': passes[kf - 1].get('d', [0.0, 0.0])}
+    elif kind == 'exception' and kf <= len(passes):
+        passes[kf - 1] = {'a': 'raise', 'exc': ['ZeroDivisionError', 'fsic.SolutionError'][j], 'partial': j}
+    elif kind == 'hook-before-exc':
+        plan['before'] = {'a': 'raise', 'exc': ['KeyError', 'fsic.NonConvergenceError'][j]}
+    elif kind == 'hook-after-exc':
+        plan['after'] = {'a': 'raise', 'exc': ['ValueError', 'InjectedError'][j]}
+    ops = []
+    if pre:
+        ops.append({'op': 'poke', 'obj': 0, 'name': ['Y0', 'Y1'][j], 'pos': 1, 'v': 'nan'})
+    ops.append({'op': 'solve_t', 'obj': 0, 't': 1, 'form': 0, 'np_ints': False, 'opts': {'min_iter': min_iter, 'max_iter': max_iter, 'tol': tol, 'offset': 0, 'failures': failures, 'errors': errors, 'catch_first_error': cfe, 'cfe_as': 'bool'}, 'plan': {'*': plan}})
+    return {'spec': spec, 'ops': ops, 'np_err': 'default', 'lattice_point': point}
+
+
+# ---- every sequence of per-pass outcomes up to four passes (C02), enumerated by run index
+
+SEQ_OUTCOMES = {'conv': [0.125, 0.0], 'move': [1.0, -1.0], 'exact': [0.5, 0.125], 'partial': [1.0, 0.0]}
+_SEQ_TABLE = None
+
+
+def _seq_table():
+    global _SEQ_TABLE
+    if _SEQ_TABLE is None:
+        import itertools
+
+        _SEQ_TABLE = [(mx, mn, seq) for mx in range(0, 5) for mn in range(0, mx + 2) for seq in itertools.product(sorted(SEQ_OUTCOMES), repeat=mx)]
+    return _SEQ_TABLE
+
+
+SEQ_OTHER = [2, 2, 3, 2]  # failures x spelling of t x offset (none / in span / out of span) x tol (0.5 / 0)
+
+
+def seq_size():
+    return len(_seq_table()) * 2 * 2 * 3 * 2
+
+
+def gen_seq_schedule(idx, tier):
+    table = _seq_table()
+    size = seq_size()
+    point = idx % size if tier == 'thorough' else (idx * 7919) % size
+    rest, digits = point, []
+    for dsz in [len(table)] + SEQ_OTHER:
+        digits.append(rest % dsz)
+        rest //= dsz
+    max_iter, min_iter, seq = table[digits[0]]
+    failures = ['raise', 'ignore'][digits[1]]
+    tol = [0.5, 0][digits[4]]
+    n = 4
+    tn = 2
+    t = tn - n if digits[2] else tn
+    offset = [0, -1, 5][digits[3]]
+    spec = {'kind': 'scripted', 'endo': ['Y0', 'Y1'], 'exo': ['X0'], 'check': ['Y0', 'Y1'], 'lags': 0, 'leads': 0, 'span': {'type': 'range', 'n': n, 'origin': 0}, 'init': {'Y0': [1.0, 2.0, 3.0, 4.0], 'Y1': [0.5, 0.25, 0.125, 8.0], 'X0': [0.0] * 4}}
+    passes = [{'a': 'delta', 'd': list(SEQ_OUTCOMES[o])} for o in seq] + [{'a': 'delta', 'd': [0.0, 0.0]}]
+    op = {'op': 'solve_t', 'obj': 0, 't': t, 'form': 0, 'np_ints': False, 'opts': {'min_iter': min_iter, 'max_iter': max_iter, 'tol': tol, 'offset': offset, 'failures': failures, 'errors': 'raise', 'catch_first_error': True, 'cfe_as': 'bool'}, 'plan': {'*': {'passes': passes}}}
+    return {'spec': spec, 'ops': [op], 'np_err': 'default', 'lattice_point': point}
+
+
 def generate(rng, idx, tier, variant):
     if variant == 'solver_parser':
         return gen_parser_schedule(rng, idx, tier)
+    if variant == 'solver_lattice':
+        return gen_lattice_schedule(idx, tier)
+    if variant == 'solver_seq':
+        return gen_seq_schedule(idx, tier)
     spec = gen_spec(rng, variant, tier)
     np_err = rng.choice(['default'] * 7 + ['ignore', 'warn', 'raise'])
     # (with the caller's error state at 'raise', an overflow in the solver's own step arithmetic is the caller's doing)
